@@ -16,6 +16,8 @@ Statements
 ["rec"]                 record logical seconds/beats seen
 ["wait", d]             yield d
 ["spawn", r]            play routine r on its clock with its quant
+["bundle", lat, els, "bind"]  flat messages through Server.default.bind()
+                        with Server.latency = lat
 ["msg", n]              send_msg('/m', rid, n) to the target address
 ["bundle", lat, els]    send_bundle(lat, *els)   els: nested lists, see mk_el
 ["tempo", c, v]         clocks[c].tempo = v
@@ -128,6 +130,12 @@ def _gen_stmt(tp, feat, r, routines, n_clocks):
     if feat.get('sends') and x < 15:
         if tp.draw(3) == 0:
             return ['msg', tp.draw(100)]
+        if feat.get('bind') and tp.draw(3) == 0:
+            # the same messages collected by a server bind() block: sent as
+            # one bundle with the server's latency when the block exits
+            return ['bundle', _gen_lat(tp),
+                    [['M', tp.draw(1000)] for _ in range(1 + tp.draw(3))],
+                    'bind']
         return ['bundle', _gen_lat(tp), _gen_els(tp, 0)]
     if feat.get('tempo_change') and x < 17 and n_clocks:
         c = tp.draw(n_clocks)
@@ -400,8 +408,12 @@ class Interp:
                       lambda: self.addr.send_msg('/m', rid, st[1]))
         elif op == 'bundle':
             els = [mk_el(e, rid) for e in st[2]]
-            self.send(rid, 'bundle', st[1], st[2],
-                      lambda: self.addr.send_bundle(st[1], *els))
+            if len(st) > 3 and st[3] == 'bind':
+                self.send(rid, 'bundle', st[1], st[2],
+                          lambda: self.bind_send(st[1], els))
+            else:
+                self.send(rid, 'bundle', st[1], st[2],
+                          lambda: self.addr.send_bundle(st[1], *els))
         elif op == 'tempo':
             c = self.clocks[f't{st[1]}']
             b0, s0 = c.beats, c.seconds
@@ -519,6 +531,18 @@ class Interp:
         if kind == 'sum3rand':
             return bi.sum3rand(1.0)
         raise ValueError(kind)
+
+    def bind_send(self, lat, msgs):
+        """The messages through a Server.bind() block of the default server
+        (whose latency is `lat`)."""
+        import sc3.synth.server as ssrv
+        srv = ssrv.Server.default
+        if srv.addr != self.addr:
+            srv.addr = self.addr
+        srv.latency = lat
+        with srv.bind():
+            for m in msgs:
+                srv.addr.send_msg(*m)
 
     def send(self, rid, kind, lat, els, fn):
         main = self.main
